@@ -83,6 +83,17 @@ def checks_phase(out, patch, only):
         print("REFUSING: /repo is not clean:\n" + o)
         return 2
     rc, o = sh(f"git -C {REPO} apply {patch}")
+    if rc:
+        rc, o2 = sh(f"git -C {REPO} apply --3way {patch}")
+        out["applied_with_3way"] = rc == 0
+        if rc:
+            out["repo_apply_error"] = (o + o2)[-500:]
+            sh(f"git -C {REPO} reset -q --hard HEAD")
+            print(json.dumps(out, indent=1))
+            return 1
+        sh(f"git -C {REPO} reset -q")
+        sh(f"git -C {REPO} diff > {patch}.rebased")
+        out["rebased_patch"] = patch + ".rebased"
     try:
         manifest = json.load(open(os.path.join(VERIF, "MANIFEST.json")))
         caught = {}
@@ -96,7 +107,7 @@ def checks_phase(out, patch, only):
                 caught[pid] = {"exit": rc, "reports": [l[:300] for l in lines[:4]] or [l for l in o.splitlines() if "ANALYSIS-ERROR" in l][:2]}
         out["caught_by"] = caught
     finally:
-        sh(f"git -C {REPO} apply -R {patch}")
+        sh(f"git -C {REPO} checkout -- . && git -C {REPO} clean -fdq")
         rc, o = sh(f"git -C {REPO} status --porcelain")
         if o.strip():
             sh(f"git -C {REPO} checkout -- . && git -C {REPO} clean -fdq")
